@@ -152,6 +152,11 @@ fn build_world(sc: &Scratch, front: &str) -> (StackCfg, ops::Dirs, PathBuf) {
             world::plant(&d.join("valid2"), &Val::one(3).bytes(), 0o444, entry_times.0 - 600_000_000_000, entry_times.1 - 600_000_000_000);
             world::plant(&d.join("valid3"), &Val::one(4).bytes(), 0o444, entry_times.1 - 300_000_000_000 + 5_000_000_000, entry_times.1 - 300_000_000_000);
             world::plant(&d.join(".kismet_temp/stale"), b"debris", 0o600, old, old);
+            // the dot-prefixed namespace is the application's, whatever the bytes after the dot (Latin-1 e-acute here);
+            // old and unread: the most evictable thing in the directory if it were taken for an entry
+            use std::os::unix::ffi::OsStrExt;
+            let odd = std::ffi::OsStr::from_bytes(b".app_state\xe9");
+            world::plant(&d.join(odd), b"application state", 0o644, old - 7_200_000_000_000 - 120_000_000_000, old - 7_200_000_000_000);
         }
     }
     (cfg, dirs, outer)
@@ -256,6 +261,14 @@ pub fn run_case(name: &str, opname: &str, front: &str, rep: &mut Report) -> Vec<
         let reserved = name.is_empty() || matches!(name.as_bytes()[0], b'.' | b'/' | b'\\');
         if reserved && !matches!(&res, Res::Err(ErrorKind::InvalidInput, _, _)) {
             bad.push(("reserved-accepted".into(), format!("reserved name was not rejected with InvalidInput: {}", res.label())));
+        }
+        // whatever the name: nothing in the dot-prefixed namespace of a cache directory is deleted or re-stamped
+        for (kind, rel) in world::diff(&before, &after, true) {
+            let base = rel.rsplit('/').next().unwrap_or(&rel).to_string();
+            let in_temp = rel.contains(".kismet_temp");
+            if base.starts_with('.') && !base.starts_with(".kismet_") && !in_temp && rel.starts_with("outer/cache") {
+                bad.push(("dot-namespace-touched".into(), format!("{} {} (an application file in the dot-prefixed namespace)", kind, rel)));
+            }
         }
         if reserved {
             let delta: Vec<(String, String)> = world::diff(&before, &after, false).into_iter().filter(|d| !d.1.starts_with("app_tmp")).collect();
@@ -475,7 +488,8 @@ pub fn run(tier: Tier, shard: Shard, rep: &mut Report) {
          InvalidInput+unchanged world for reserved names, else error+unchanged or effects confined to the single \
          direct-child entry, plus a monitor on every mutating call's path; every name of length <= 2 (thorough 3) and the edge names \
          again in a world where maintenance is due (over capacity, stale debris in .kismet_temp, trigger firing): a reserved name (empty, or starting with '.', '/', '\\') is \
-         rejected with InvalidInput and leaves that world unchanged too. Plus, under concurrency (all schedules with <= 2 preemptions of a maintaining writer racing with a deleter or another \
+         rejected with InvalidInput and leaves that world unchanged too, and whatever the name, application dot-files (one of them not \
+         valid UTF-8) are neither deleted nor re-stamped by the maintenance. Plus, under concurrency (all schedules with <= 2 preemptions of a maintaining writer racing with a deleter or another \
          writer, sentinel files named like the entries one directory up): every mutating call lands inside the cache's own \
          directories. Non-trivial = accepted-by-first-byte name containing a separator, NUL, '..' or of extreme length.",
         max_len,
